@@ -33,7 +33,7 @@ func hopByHopNominated(r *R) {
 		if !isDel && !isDelete {
 			return
 		}
-		key := describe(c.Common().Args[1])
+		key := describe(refArgs(c.Common())[1])
 		if !strings.Contains(key, "strings.Split(") {
 			return // the static list
 		}
@@ -53,7 +53,7 @@ func hopByHopNominated(r *R) {
 	// the static list is removed through Del as well
 	m := 0
 	eachInstr(fn, func(ins ssa.Instruction) {
-		if c, ok := ins.(*ssa.Call); ok && calleeName(c.Common()) == "(net/http.Header).Del" && strings.Contains(describe(c.Common().Args[1]), "hopByHopHeaders") {
+		if c, ok := ins.(*ssa.Call); ok && calleeName(c.Common()) == "(net/http.Header).Del" && strings.Contains(describe(refArgs(c.Common())[1]), "hopByHopHeaders") {
 			m++
 		}
 	})
@@ -90,7 +90,7 @@ func c04r9(r *R) {
 			check(x, describe(x.Key))
 		case *ssa.Call:
 			if calleeName(x.Common()) == "builtin append" {
-				for _, v := range variadicArgs(x.Common().Args[1]) {
+				for _, v := range variadicArgs(refArgs(x.Common())[1]) {
 					check(x, describe(v))
 				}
 			}
@@ -108,7 +108,7 @@ func c06r7(r *R) {
 		eachInstr(fn, func(ins ssa.Instruction) {
 			if c, ok := ins.(*ssa.Call); ok && strings.HasSuffix(calleeName(c.Common()), ").modifyRequest") && mod == nil {
 				mod = ins
-				reqTerm = describe(c.Common().Args[len(c.Common().Args)-1])
+				reqTerm = describe(refArgs(c.Common())[len(c.Common().Args)-1])
 			}
 		})
 		if mod == nil {
@@ -123,18 +123,18 @@ func c06r7(r *R) {
 				if cn != "(net/http.Header).Set" && cn != "(net/http.Header).Add" {
 					return
 				}
-				if describe(x.Common().Args[0]) != reqTerm+".Header" || !reaches(mod, ins) {
+				if describe(refArgs(x.Common())[0]) != reqTerm+".Header" || !reaches(mod, ins) {
 					return
 				}
 				n++
-				k, isC := constString(x.Common().Args[1])
+				k, isC := constString(refArgs(x.Common())[1])
 				if !isC || cn != "(net/http.Header).Set" || k != "Connection" && k != "Upgrade" {
-					bad = append(bad, fmt.Sprintf("%s(%s, ...) at %s", cn[strings.LastIndex(cn, ".")+1:], describe(x.Common().Args[1]), r.rel(x.Pos())))
+					bad = append(bad, fmt.Sprintf("%s(%s, ...) at %s", cn[strings.LastIndex(cn, ".")+1:], describe(refArgs(x.Common())[1]), r.rel(x.Pos())))
 					return
 				}
 				if k == "Connection" {
-					if v, ok := constString(x.Common().Args[2]); !ok || v != "Upgrade" {
-						bad = append(bad, "Connection set to "+describe(x.Common().Args[2]))
+					if v, ok := constString(refArgs(x.Common())[2]); !ok || v != "Upgrade" {
+						bad = append(bad, "Connection set to "+describe(refArgs(x.Common())[2]))
 					}
 				}
 			case *ssa.MapUpdate:
@@ -394,7 +394,7 @@ func c15r7(r *R) {
 	hl := r.method("internal/martian", "Proxy", "handleLoop")
 	found := false
 	eachInstr(hl, func(ins ssa.Instruction) {
-		if c, ok := ins.(*ssa.Call); ok && calleeName(c.Common()) == "errors.Is" && strings.HasSuffix(describe(c.Common().Args[1]), "martian.errClose") {
+		if c, ok := ins.(*ssa.Call); ok && calleeName(c.Common()) == "errors.Is" && strings.HasSuffix(describe(refArgs(c.Common())[1]), "martian.errClose") {
 			found = true
 		}
 		if b, ok := ins.(*ssa.BinOp); ok && (strings.HasSuffix(describe(b.Y), "martian.errClose") || strings.HasSuffix(describe(b.X), "martian.errClose")) {
